@@ -216,6 +216,30 @@ fn value_part(run: &Run, thorough: bool) -> Acc {
             qs.push(format!("$[?{}<{}]", q, n));
         }
     }
+    // value() / length() / count() over "no node" in each of its guises (absent member, index out of range, wildcard
+    // of an empty container, empty slice, filter without a hit, a step after a multi-node step) and over several nodes,
+    // compared with nothing, with each other and with values
+    {
+        let nothings = ["@.zz", "@.x[9]", "@.x.*", "@.x[5:]", "@.x[0:0]", "@.x[?@==7777]", "@.x.*.zz", "@.x..zz", "@..zz", "@.x[0,0].zz", "@.x[*]", "@.x[0:2]", "$[?@.zz==1]"];
+        for a in nothings {
+            for op in ["==", "!=", "<=", ">"] {
+                qs.push(format!("$[?value({}){}@.zz]", a, op));
+                qs.push(format!("$[?@.zz{}value({})]", op, a));
+                qs.push(format!("$[?value({}){}@.x]", a, op));
+                qs.push(format!("$[?@.x{}value({})]", op, a));
+                qs.push(format!("$[?value({}){}value(@.zz)]", a, op));
+                qs.push(format!("$[?length(value({})){}0]", a, op));
+                qs.push(format!("$[?count({}){}0]", a, op));
+            }
+            for b in nothings {
+                qs.push(format!("$[?value({})==value({})]", a, b));
+            }
+            qs.push(format!("$[?length(value({}))>=0]", a));
+            qs.push(format!("$[?length(value({}))==length(@.zz)]", a));
+            qs.push(format!("$[?match(value({}),'.*')]", a));
+            qs.push(format!("$[?!search(value({}),'')]", a));
+        }
+    }
     for q in ["$[?$[?@.x]]", "$[?!$[?@.x==7777]]", "$[?$..[?@==1]]", "$[?value($[?@.x==null].x)==null]", "$[?$[?@.x==true].x]", "$[?@.x==value($[?@.x=='a'].x)]"] {
         qs.push(q.to_string());
     }
